@@ -152,3 +152,92 @@ pub fn c03_float(run: &Run) {
         );
     }
 }
+
+/// C06: (a) a variable value of the wrong kind does not fail the request before
+/// execution; (b) dynamic resolvers receive values without nested coercion.
+pub fn c06(run: &Run) {
+    use vh_model::types::{ArgDef, FieldDef, Kind, Ty, TypeDef, TypeSystem};
+    use vh_model::doc::VarDef;
+    // (a) static S1: query($v: Filter) { echoInt(v: 1) echoFilter(f: $v) }  with {"v": 3.5}
+    let schema = AnySchema::S1(s1::schema());
+    let mut d = Doc::default();
+    let a = field(&mut d, "echoInt", vec![("v", Val::Int(1))], vec![]);
+    let b = field(&mut d, "echoFilter", vec![("f", Val::Var("v".into()))], vec![]);
+    d.ops = vec![Op {
+        kind: OpKind::Query,
+        name: None,
+        vars: vec![VarDef { name: "v".into(), ty: Ty::named("Filter"), default: None }],
+        dirs: vec![],
+        sel: vec![a, b],
+    }];
+    let gd = GenDoc { doc: d, op_name: None, vars: json!({"v": 3.5}), features: Default::default() };
+    let case = Case::new(s1::model(), gd, World::new(3), false);
+    let env = Env::new(case.ts.clone(), case.world.clone());
+    let resp = schema.execute(case.request(&env));
+    run.eval();
+    let o = observe(&resp);
+    let ran: Vec<String> = env.log.snapshot().iter().filter(|e| e.kind == vh_schema::Ek::Start).map(|e| e.path.clone()).collect();
+    let observed = format!(
+        "{} with {{\"v\": 3.5}} -> resolvers ran {:?}; {} error(s) at {:?}",
+        case.printed.text,
+        ran,
+        o.errors.len(),
+        o.errors.iter().map(|e| e.path.as_ref().map(|p| vh_model::exec::path_str(p)).unwrap_or("<none>".into())).collect::<Vec<_>>()
+    );
+    if ran.is_empty() && !o.errors.is_empty() {
+        run.count("witness_C06_variable_coercion_now_clean", 1);
+    } else {
+        run.violation(
+            &format!("C06-no-variable-coercion-step|{observed}"),
+            &format!("pinned witness: {observed}"),
+            json!({"witness": "C06-no-variable-coercion-step", "observed": observed}),
+        );
+    }
+    // (b) dynamic: input In { a: Int = 5 }  type Query { f(x: In, l: [Int]): Int }   { f(x: {}, l: 3) }
+    let mut ts = TypeSystem::new("Query");
+    ts.add(TypeDef {
+        name: "In".into(),
+        kind: Kind::Input { fields: vec![ArgDef { name: "a".into(), ty: Ty::named("Int"), default: Some(Val::Int(5)) }], oneof: false },
+    });
+    ts.add(TypeDef {
+        name: "Query".into(),
+        kind: Kind::Object {
+            fields: vec![FieldDef {
+                name: "f".into(),
+                args: vec![
+                    ArgDef { name: "x".into(), ty: Ty::named("In"), default: None },
+                    ArgDef { name: "l".into(), ty: Ty::named("Int").list(), default: None },
+                ],
+                ty: Ty::named("Int"),
+            }],
+            implements: vec![],
+        },
+    });
+    let ts = std::sync::Arc::new(ts);
+    let dschema = AnySchema::Dyn(vh_schema::dynb::build(&ts).expect("witness schema builds"));
+    let mut d = Doc::default();
+    let f = field(&mut d, "f", vec![("x", Val::Obj(vec![])), ("l", Val::Int(3))], vec![]);
+    d.ops = vec![op(OpKind::Query, vec![f])];
+    let gd = GenDoc { doc: d, op_name: None, vars: json!({}), features: Default::default() };
+    let case = Case::new(ts.clone(), gd, World::new(3), false);
+    let env = Env::new(case.ts.clone(), case.world.clone());
+    let _ = dschema.execute(case.request(&env));
+    run.eval();
+    let got: Vec<String> = env
+        .log
+        .snapshot()
+        .iter()
+        .filter(|e| e.kind == vh_schema::Ek::Start)
+        .map(|e| e.args.as_ref().map(|a| a.gql()).unwrap_or_default())
+        .collect();
+    let observed = format!("input In {{ a: Int = 5 }} type Query {{ f(x: In, l: [Int]): Int }}: {} -> resolver received {:?}", case.printed.text, got);
+    if got == vec!["{x: {a: 5}, l: [3]}".to_string()] {
+        run.count("witness_C06_dynamic_nested_coercion_now_clean", 1);
+    } else {
+        run.violation(
+            &format!("C06-dynamic-values-without-nested-coercion|{observed}"),
+            &format!("pinned witness: {observed}"),
+            json!({"witness": "C06-dynamic-values-without-nested-coercion", "observed": observed}),
+        );
+    }
+}
